@@ -18,10 +18,10 @@ import (
 	vestv2 "github.com/chain4energy/c4e-chain/x/cfevesting/migrations/v2"
 	vesttypes "github.com/chain4energy/c4e-chain/x/cfevesting/types"
 	sdk "github.com/cosmos/cosmos-sdk/types"
-	"google.golang.org/protobuf/encoding/protowire"
 	authtypes "github.com/cosmos/cosmos-sdk/x/auth/types"
 	vestingtypes "github.com/cosmos/cosmos-sdk/x/auth/vesting/types"
 	upgradetypes "github.com/cosmos/cosmos-sdk/x/upgrade/types"
+	"google.golang.org/protobuf/encoding/protowire"
 )
 
 func init() {
@@ -31,7 +31,8 @@ func init() {
 			"then the registered v1.2.0 handler is run through UpgradeKeeper.ApplyUpgrade (RunMigrations, trace update, validators-pool split, account shift). Generated: 0-300 pool owners with 1-3 pools and arbitrary sent/withdrawn history; hard-coded validators-pool owner present/absent, with/without 'Validators pool' / 'Advisors pool', 'Validators' type present/absent, " +
 			"validators pool locked in {0, sum-1, sum, sum+1, huge} with non-zero sent/withdrawn, new pool names already taken; the four hard-coded accounts absent / base / continuous / delayed; legacy minter configurations of all kinds and generated sub-distributors. " +
 			"Oracle: handler does not panic or fail; total locked and every pool's sent/withdrawn unchanged; module balance == pools and pool bounds; split applied completely (4 new pools with the constants' amounts, validators pool reduced by their sum and renamed) or not at all; shifted accounts keep amounts and move start/end by exactly one calendar year; " +
-			"migrated minter/distributor params validate and equal the legacy ones field for field; no pool or trace disappears. Non-trivial: hard-coded owner present with >=2 pools and >=20 other owners. Distinct by state hash.",
+			"migrated minter/distributor params validate and equal the legacy ones field for field; no pool or trace disappears. Non-trivial: hard-coded owner present with >=2 pools and >=20 other owners. Distinct by state hash." +
+			" Also: legacy pool records hand-encoded in the v1.1.0 wire format, owners without pools, shuffled legacy emission periods, names of new vesting types already taken (types all-or-nothing), the upgrade run twice for determinism (every 4th state); every 8th case probes the cfevesting version 1->2 store migration on a store staged from pool histories, every 16th the distributor's version 1->2 parameter migration.",
 		Cases:         func(t string) int { return tierN(t, 480, 8000) },
 		MinNontrivial: func(t string) int { return tierN(t, 60, 600) },
 		Run:           runC16,
